@@ -1,5 +1,6 @@
 // c07facts translates the pure leaves of the GraphQL scanner — the rune predicates, tables and
-// constants of graphql/scanner/*.go and graphql/token/token.go (plus a few parser constants for C06) —
+// constants of graphql/scanner/*.go and graphql/token/token.go — (nothing of graphql/parser is read for C07) —
+// (with -parser: a few parser constants instead, into a separate file no C07 obligation depends on)
 // from the *current* source of the repository into Lean 4 definitions
 // (lean/ApiFu/C07/Generated.lean). lean/ApiFu/C07/PropsGenerated.lean proves, for all runes, that every
 // generated definition equals the corresponding leaf of the hand-written model (Model.lean), so the
@@ -915,6 +916,75 @@ func (t *tr) scannerFacts() {
 		t.cond(e, "consumeRuneNewLine", "consumeRune: does the consumed rune r end a line? (nextRune is the rune *after* r)", ifs[0].Cond)
 	}
 
+	// readNextRune: the value of s.nextRune at the end of the input; New: the initial position
+	{
+		fd := t.fn("scanner.Scanner.readNextRune")
+		e := t.newEnv("scanner", fd)
+		first, ok := fd.Body.List[0].(*ast.IfStmt)
+		if !ok || first.Init != nil || t.src(first.Cond) != e.recv+".isDone()" {
+			t.fail(fd, "readNextRune: does not start with `if s.isDone() {`")
+		}
+		var eof *val
+		for _, st := range first.Body.List {
+			if a, ok := st.(*ast.AssignStmt); ok && a.Tok == token.ASSIGN && len(a.Lhs) == 1 && t.isRecvField(a.Lhs[0], e.recv, "nextRune") {
+				v := e.expr(a.Rhs[0])
+				if !v.isConst {
+					t.fail(a, "readNextRune: s.nextRune at the end of the input is not a constant")
+				}
+				eof = &v
+			}
+		}
+		if eof == nil {
+			t.fail(first, "readNextRune: the end-of-input branch does not assign s.nextRune")
+		}
+		t.comment("readNextRune: at the end of the input", first.Cond, first.Body)
+		fmt.Fprintf(&t.out, "def endOfInputRune : Int := %s\n\n", lit(eof.c))
+
+		nf := t.fn("scanner.New")
+		line, col := int64(-1), int64(-1)
+		ast.Inspect(nf.Body, func(n ast.Node) bool {
+			cl, ok := n.(*ast.CompositeLit)
+			if !ok || t.src(cl.Type) != "Scanner" {
+				return true
+			}
+			for _, el := range cl.Elts {
+				kv, ok := el.(*ast.KeyValueExpr)
+				if !ok {
+					t.fail(el, "New: Scanner literal without field names")
+				}
+				switch t.src(kv.Key) {
+				case "line", "column":
+					ne := t.newEnv("scanner", nil)
+					v := ne.expr(kv.Value)
+					if !v.isConst {
+						t.fail(kv, "New: initial %s is not a constant", t.src(kv.Key))
+					}
+					if t.src(kv.Key) == "line" {
+						line = v.c
+					} else {
+						col = v.c
+					}
+				case "offset":
+					t.fail(kv, "New: initial offset given explicitly")
+				}
+			}
+			return true
+		})
+		if line < 0 || col < 0 {
+			t.fail(nf, "New: no Scanner literal with constant line and column")
+		}
+		fmt.Fprintf(&t.out, "/-- `New`: `line: %d, column: %d` (offset is the zero value). -/\ndef initialLine : Int := %d\ndef initialColumn : Int := %d\n\n", line, col, line, col)
+		fmt.Fprintf(&t.hash, "New line %d column %d\n", line, col)
+
+		sv := t.fn("scanner.Scanner.StringValue")
+		se := t.newEnv("scanner", sv)
+		ifs := ifsOf(sv.Body)
+		if len(ifs) != 1 || ifs[0].Else == nil || !strings.Contains(t.src(ifs[0].Body), "tokenStringValue") || !strings.Contains(t.src(ifs[0].Else), "Literal()") {
+			t.fail(sv, "StringValue: expected `if cond { return s.tokenStringValue } else { return s.Literal() }`")
+		}
+		t.cond(se, "stringValueIsDecoded", "StringValue(): the decoded value (not the literal text) is returned iff", ifs[0].Cond)
+	}
+
 	t.out.WriteString("/-! ## scanner.go: the dispatch of Scan -/\n\n")
 	fd := t.fn("scanner.Scanner.Scan")
 	e := t.newEnv("scanner", fd)
@@ -1036,6 +1106,13 @@ func (t *tr) scannerFacts() {
 			t.fail(after[0], "Scan: the if after the switch does not `continue`")
 		}
 		t.cond(e, "scanSkips", "Scan: the token is not returned (the loop continues) iff", after[0].Cond)
+	}
+
+	if c, ok := t.consts["scanner.ScanIgnored"]; ok && c.typ == "Mode" {
+		fmt.Fprintf(&t.out, "/-- `ScanIgnored Mode = 1 << iota`. -/\ndef scanIgnoredBit : Nat := %d\n\n", c.v)
+		fmt.Fprintf(&t.hash, "ScanIgnored=%d\n", c.v)
+	} else {
+		t.fail(nil, "scanner.ScanIgnored not found")
 	}
 
 	t.out.WriteString("/-! ## int_value.go, float_value.go: the conditions, in source order -/\n\n")
@@ -1241,6 +1318,67 @@ func (t *tr) stringFacts() {
 		}
 		fmt.Fprintf(&b, "%s%d\n", ind, len(conds))
 		fmt.Fprintf(&t.out, "def stringCharCase%s : Nat :=\n%s\n", paramList(e.params()), b.String())
+	}
+	// inside the chain: CRLF in a block string (branch of the line-terminator test), the `\"""` escape (branch of
+	// the backslash test)
+	{
+		var branches []*ast.BlockStmt
+		for c := chain; ; {
+			branches = append(branches, c.Body)
+			next, ok := c.Else.(*ast.IfStmt)
+			if !ok {
+				break
+			}
+			c = next
+		}
+		var crlf *ast.IfStmt
+		for _, s := range ifsOf(branches[0]) {
+			if callsMethod(s.Cond, e.recv, "consumeRune") {
+				if crlf != nil {
+					t.fail(s, "consumeStringValue: two conditions consume a rune in the line-terminator branch")
+				}
+				crlf = s
+			}
+		}
+		if crlf == nil {
+			t.fail(branches[0], "consumeStringValue: no `if s.consumeRune() == … && …` in the line-terminator branch")
+		}
+		e.allowConsume = true
+		t.cond(e, "stringCRLF", "consumeStringValue, line terminator inside a block string: after consuming one rune (`consumed`), a second one is consumed (and appended) iff", crlf.Cond)
+		e.allowConsume = false
+		if len(branches) < 2 {
+			t.fail(chain, "consumeStringValue: the character chain has no backslash branch")
+		}
+		var quote []string
+		nhp := 0
+		ast.Inspect(branches[1], func(n ast.Node) bool {
+			c, ok := n.(*ast.CallExpr)
+			if !ok || t.src(c.Fun) != "bytes.HasPrefix" || len(c.Args) != 2 {
+				return true
+			}
+			nhp++
+			conv, ok := c.Args[1].(*ast.CallExpr)
+			if !ok || t.src(conv.Fun) != "[]byte" || len(conv.Args) != 1 || t.src(c.Args[0]) != e.recv+".src["+e.recv+".offset:]" {
+				t.fail(c, "consumeStringValue: bytes.HasPrefix is not of the form bytes.HasPrefix(s.src[s.offset:], []byte(\"…\"))")
+			}
+			l, ok := conv.Args[0].(*ast.BasicLit)
+			if !ok || l.Kind != token.STRING {
+				t.fail(c, "consumeStringValue: bytes.HasPrefix argument is not a string literal")
+			}
+			str, err := strconv.Unquote(l.Value)
+			if err != nil {
+				t.fail(l, "string literal %s", l.Value)
+			}
+			for _, r := range str {
+				quote = append(quote, fmt.Sprint(int(r)))
+			}
+			return true
+		})
+		if nhp != 1 {
+			t.fail(branches[1], "consumeStringValue: expected exactly one bytes.HasPrefix test in the backslash branch (found %d)", nhp)
+		}
+		fmt.Fprintf(&t.out, "/-- In a block string a backslash is an escape iff the source continues with this text\n    (`bytes.HasPrefix(s.src[s.offset:], …)`; code points). -/\ndef blockEscapedText : List Nat := [%s]\n\n", strings.Join(quote, ", "))
+		fmt.Fprintf(&t.hash, "block escape %v\n", quote)
 	}
 	// opening / closing triple quote, the loop condition
 	var quoteTests []*ast.IfStmt
@@ -1539,7 +1677,7 @@ func goroot() string {
 	return runtime.GOROOT()
 }
 
-func translate(repo string) (out string, err error) {
+func translate(repo string, parserOnly bool) (out string, err error) {
 	t := &tr{fset: token.NewFileSet(), funcs: map[string]*ast.FuncDecl{}, fields: map[string]kind{},
 		consts: map[string]constVal{}, order: map[string][]string{}, pure: map[string]kind{}}
 	defer func() {
@@ -1556,15 +1694,25 @@ func translate(repo string) (out string, err error) {
 		t.fail(nil, "utf8.RuneError not found in $GOROOT/src/unicode/utf8/utf8.go")
 	}
 	t.load(filepath.Join(repo, "graphql", "token"), "token")
+	if parserOnly {
+		// C06/C12-facing facts: a separate output that no C07 obligation depends on
+		t.load(filepath.Join(repo, "graphql", "parser"), "parser", "parser.go")
+		t.parserFacts()
+		var b strings.Builder
+		b.WriteString("/-\n  GENERATED by `/verif/tools/c07facts -parser` from graphql/parser/parser.go (and the constants of\n  graphql/token/token.go) — not built or audited by any check; offered to C06 / C12 (design-notes/C07.md).\n  Core Lean, no imports. Token kinds are the values of token.go's constants (INVALID = 0 … COMMA = 10).\n-/\nnamespace ApiFu.C06.GeneratedParserFacts\n\n")
+		b.WriteString(t.out.String())
+		h := sha256.Sum256(t.hash.Bytes())
+		fmt.Fprintf(&b, "/-- sha256 of the translated fragments (evidence only). -/\ndef sourceSha256 : String := %q\n", hex.EncodeToString(h[:]))
+		b.WriteString("\nend ApiFu.C06.GeneratedParserFacts\n")
+		return b.String(), nil
+	}
 	t.load(filepath.Join(repo, "graphql", "scanner"), "scanner")
-	t.load(filepath.Join(repo, "graphql", "parser"), "parser", "parser.go")
 
 	t.tokenFacts()
 	t.scannerFacts()
-	t.parserFacts()
 
 	var b strings.Builder
-	b.WriteString("/-\n  GENERATED by /verif/tools/c07facts from graphql/scanner/*.go and graphql/token/token.go (and two\n  constants of graphql/parser/parser.go) of the repository under check — do not edit; regenerated at the\n  start of every `./check C07` (pre_cmds of checks/C07.json).\n")
+	b.WriteString("/-\n  GENERATED by /verif/tools/c07facts from graphql/scanner/*.go and graphql/token/token.go of the\n  repository under check (nothing else is read) — do not edit; regenerated at the\n  start of every `./check C07` (pre_cmds of checks/C07.json).\n")
 	b.WriteString("  Literal translation: runes and ints are `Int` (`-1` = end of input / error value), rune arithmetic is\n  wrapped to 32 bits (`wrap32`), conditions are `Bool`. `PropsGenerated.lean` proves every definition here\n  equal, for all runes, to the corresponding leaf of the hand-written model `Model.lean`.\n-/\n")
 	b.WriteString("import ApiFu.C07.GoInt\n\nnamespace ApiFu.C07.Generated\nopen ApiFu.C07\n\n")
 	b.WriteString(t.out.String())
@@ -1576,7 +1724,7 @@ func translate(repo string) (out string, err error) {
 
 // parserFacts: C06-facing constants (C06's files are not C07's; the facts live here).
 func (t *tr) parserFacts() {
-	t.out.WriteString("/-! ## graphql/parser/parser.go (facts for C06) -/\n\n")
+	t.out.WriteString("/-! ## graphql/parser/parser.go -/\n\n")
 	c, ok := t.consts["parser.maxRecursion"]
 	if !ok {
 		t.fail(nil, "parser.maxRecursion not found")
@@ -1619,11 +1767,87 @@ func (t *tr) parserFacts() {
 	}
 	fmt.Fprintf(&t.out, "/-- `scanner.New(src, %d)` in newParser: the parser reads the scanner in this mode. -/\ndef parserScannerMode : Nat := %d\n\n", v, v)
 	fmt.Fprintf(&t.hash, "parser scanner mode=%d\n", v)
-	if c, ok := t.consts["scanner.ScanIgnored"]; ok && c.typ == "Mode" {
-		fmt.Fprintf(&t.out, "/-- `ScanIgnored Mode = 1 << iota`. -/\ndef scanIgnoredBit : Nat := %d\n\n", c.v)
-	} else {
-		t.fail(nil, "scanner.ScanIgnored not found")
+	// every token constant the parser mentions
+	kinds := map[int64]bool{}
+	for key, f := range t.funcs {
+		if !strings.HasPrefix(key, "parser.") {
+			continue
+		}
+		ast.Inspect(f, func(n ast.Node) bool {
+			if sel, ok := n.(*ast.SelectorExpr); ok {
+				if c, ok := t.consts[t.src(sel)]; ok && c.typ == "Token" {
+					kinds[c.v] = true
+				}
+			}
+			return true
+		})
 	}
+	var ks []int64
+	for k := range kinds {
+		ks = append(ks, k)
+	}
+	sort.Slice(ks, func(a, b int) bool { return ks[a] < ks[b] })
+	var kss []string
+	for _, k := range ks {
+		kss = append(kss, lit(k))
+	}
+	fmt.Fprintf(&t.out, "/-- The values of the `token.X` constants mentioned anywhere in parser.go (ascending). -/\ndef parserTokenKinds : List Int := [%s]\n\n", strings.Join(kss, ", "))
+	fmt.Fprintf(&t.hash, "parser token kinds %v\n", ks)
+	// parseValue: which AST node types each token kind can start
+	pv := t.fn("parser.parser.parseValue")
+	var vsw *ast.SwitchStmt
+	ast.Inspect(pv.Body, func(n ast.Node) bool {
+		if sw, ok := n.(*ast.SwitchStmt); ok && vsw == nil && sw.Tag != nil && t.src(sw.Tag) == "t.Token" {
+			vsw = sw
+			return false
+		}
+		return true
+	})
+	if vsw == nil {
+		t.fail(pv, "parseValue: no `switch …; t.Token`")
+	}
+	type row struct {
+		tok   int64
+		nodes []string
+	}
+	var rows []row
+	seenTok := map[int64]bool{}
+	for _, c := range vsw.Body.List {
+		cc := c.(*ast.CaseClause)
+		set := map[string]bool{}
+		ast.Inspect(cc, func(n ast.Node) bool {
+			if cl, ok := n.(*ast.CompositeLit); ok {
+				if ty := t.src(cl.Type); strings.HasPrefix(ty, "ast.") {
+					set[strings.TrimPrefix(ty, "ast.")] = true
+				}
+			}
+			return true
+		})
+		var nodes []string
+		for n := range set {
+			nodes = append(nodes, fmt.Sprintf("%q", n))
+		}
+		sort.Strings(nodes)
+		for _, l := range cc.List {
+			c, ok := t.consts[t.src(l)]
+			if !ok || c.typ != "Token" {
+				t.fail(l, "parseValue: case label %s is not a token constant", t.src(l))
+			}
+			if seenTok[c.v] {
+				t.fail(l, "parseValue: duplicate case label")
+			}
+			seenTok[c.v] = true
+			rows = append(rows, row{c.v, nodes})
+		}
+	}
+	sort.Slice(rows, func(a, b int) bool { return rows[a].tok < rows[b].tok })
+	var rs []string
+	for _, r := range rows {
+		rs = append(rs, fmt.Sprintf("(%s, [%s])", lit(r.tok), strings.Join(r.nodes, ", ")))
+		fmt.Fprintf(&t.hash, "parseValue %d %v\n", r.tok, r.nodes)
+	}
+	t.out.WriteString("/-- parseValue's `switch t.Token`: for each token kind with a clause (ascending), the `ast.X` node types constructed\n    (composite literals) anywhere in that clause, sorted. Other kinds fall to the default clause (an error). -/\n")
+	fmt.Fprintf(&t.out, "def parserValueDispatch : List (Int × List String) :=\n  [%s]\n\n", strings.Join(rs, ",\n   "))
 }
 
 func writeIfChanged(path string, content []byte) error {
@@ -1641,11 +1865,12 @@ func main() {
 	repo := flag.String("repo", os.Getenv("VERIF_REPO"), "repository root (default $VERIF_REPO, then /repo)")
 	out := flag.String("out", "", "Lean file to write (default: stdout)")
 	fallback := flag.String("fallback", "", "file copied to -out when the source cannot be translated")
+	parserOnly := flag.Bool("parser", false, "emit only the facts of graphql/parser/parser.go (for C06/C12; not part of C07's check)")
 	flag.Parse()
 	if *repo == "" {
 		*repo = "/repo"
 	}
-	text, err := translate(*repo)
+	text, err := translate(*repo, *parserOnly)
 	if err != nil {
 		fmt.Fprintln(os.Stderr, "c07facts:", err)
 		if *fallback != "" && *out != "" {
